@@ -12,7 +12,7 @@ put back so that a CR LF straddling two fills is still recognised as the line en
 C02-r5-3 removes exactly that step from the dump-mode reader: line length 4095 + k·4096).
 
 Tie: lane `h1line` (.) — the real `newTextprotoReader(...).ReadLine()` with and without
-dumpers over a real `bufio.Reader` of sizes 16..4096 against `Bufio.readLines`, line by line;
+dumpers over a real `bufio.Reader` of sizes 16..4096 against `Bufio.readLinesAny`, line by line;
 lane `h1longline` — the real client end to end, dump option matrix × read-buffer size × which
 line of the head is long.
 -/
@@ -60,7 +60,7 @@ exactly those lines, and the reader stands exactly at what follows the head. -/
 theorem h1_lines_any_length (fuel : Nat) : ∀ (lines : List Bytes) (after : Bytes) (b : Bufio),
     b.WF → b.Fits → 2 ≤ b.cap → b.rem = wireOfLines lines ++ after →
     (∀ l ∈ lines, (10 : UInt8) ∉ l ∧ l.length + 1 < fuel) →
-    ∃ b', Bufio.readLines lines.length fuel b = (lines, none, b') ∧ b'.rem = after ∧ b'.WF ∧ b'.Fits ∧
+    ∃ b', Bufio.readLinesAny lines.length fuel b = (lines, none, b') ∧ b'.rem = after ∧ b'.WF ∧ b'.Fits ∧
       b'.cap = b.cap
   | [], after, b, hw, hf, _, hrem, _ => ⟨b, rfl, by simpa [wireOfLines] using hrem, hw, hf, rfl⟩
   | l :: ls, after, b, hw, hf, hcap, hrem, hall => by
@@ -70,7 +70,7 @@ theorem h1_lines_any_length (fuel : Nat) : ∀ (lines : List Bytes) (after : Byt
     obtain ⟨b', g1, g2, g3, g4, g5⟩ := h1_lines_any_length fuel ls after b1 h3 h4 (by omega) h2
       (fun x hx => hall x (List.mem_cons_of_mem _ hx))
     refine ⟨b', ?_, g2, g3, g4, by rw [g5, h5]⟩
-    simp only [List.length_cons, Bufio.readLines, h1, g1]
+    simp only [List.length_cons, Bufio.readLinesAny, h1, g1]
 
 /-- From a fresh connection under ANY segmentation of the whole stream (the form of round 4's
 `h1_head_lines_split_independent`, without its "each line fits the buffer"). -/
@@ -78,7 +78,7 @@ theorem h1_head_lines_any_length_wire (cap fuel : Nat) (segs : List Bytes) (fin 
     (lines : List Bytes) (after : Bytes) (hcap : 2 ≤ cap)
     (hwire : segs.flatten = wireOfLines lines ++ after)
     (hall : ∀ l ∈ lines, (10 : UInt8) ∉ l ∧ l.length + 1 < fuel) :
-    ∃ b', Bufio.readLines lines.length fuel (Bufio.new cap ⟨segs, fin⟩) = (lines, none, b') ∧
+    ∃ b', Bufio.readLinesAny lines.length fuel (Bufio.new cap ⟨segs, fin⟩) = (lines, none, b') ∧
       b'.rem = after := by
   obtain ⟨b', h1, h2, _⟩ := h1_lines_any_length fuel lines after (Bufio.new cap ⟨segs, fin⟩)
     (Bufio.new_wf _ _) (Bufio.new_fits _ _) hcap (by rw [Bufio.new_rem]; exact hwire) hall
@@ -87,13 +87,13 @@ theorem h1_head_lines_any_length_wire (cap fuel : Nat) (segs : List Bytes) (fin 
 /-! Non-vacuity, on the executable model with a 4-byte buffer: a line whose CR is the last byte
 of a full buffer ("abc\r\n"), a longer one with a CR in the middle on a buffer edge, one-byte
 segments. -/
-example : (Bufio.readLines 2 20 (Bufio.new 4 ⟨[[97, 98, 99, 13, 10, 100, 13, 10, 120]], .eof⟩)).1 =
+example : (Bufio.readLinesAny 2 20 (Bufio.new 4 ⟨[[97, 98, 99, 13, 10, 100, 13, 10, 120]], .eof⟩)).1 =
     [[97, 98, 99], [100]] := by decide
 
-example : (Bufio.readLines 1 20 (Bufio.new 4 ⟨[[97], [98], [99], [13], [101, 102, 103, 13], [10], [120]], .eof⟩)).1 =
+example : (Bufio.readLinesAny 1 20 (Bufio.new 4 ⟨[[97], [98], [99], [13], [101, 102, 103, 13], [10], [120]], .eof⟩)).1 =
     [[97, 98, 99, 13, 101, 102, 103]] := by decide
 
-example : ((Bufio.readLines 1 20 (Bufio.new 4 ⟨[[97, 98, 99, 13, 10, 120]], .eof⟩)).2.2).rem = [120] := by decide
+example : ((Bufio.readLinesAny 1 20 (Bufio.new 4 ⟨[[97, 98, 99, 13, 10, 120]], .eof⟩)).2.2).rem = [120] := by decide
 
 example : wireOfLines [[97, 98, 99], [100]] = [97, 98, 99, 13, 10, 100, 13, 10] := by decide
 
